@@ -848,11 +848,12 @@ class ISLaSolver:
             def do_complete(tree: DerivationTree) -> Maybe[DerivationTree]:
                 return result_to_maybe(
                     safe(
+                        exceptions=(UnknownResultError, TimeoutError, StopIteration)
+                    )(
                         self.copy_without_queue(
                             initial_tree=Some(tree),
                             timeout_seconds=Some(fix_timeout_seconds),
-                        ).solve,
-                        (UnknownResultError, TimeoutError, StopIteration),
+                        ).solve
                     )()
                 )
 
@@ -4150,7 +4151,7 @@ def implies(
     )
 
     return (
-        safe(solver.solve, exceptions=(StopIteration,))()
+        safe(exceptions=(StopIteration,))(solver.solve)()
         .map(lambda _: False)
         .lash(lambda _: Success(True))
     ).unwrap()
